@@ -87,7 +87,7 @@ def gen_delta_case(r, cid):
     return {
         "kind": "delta",
         "cid": cid,
-        "point": r.choice(["number", "tensor", "lazy", "int"]),
+        "point": r.choice(["number", "tensor", "lazy", "int", "vector", "vector", "matrix"]),
         "value": round(r.uniform(-2, 2), 3),
         "ld": r.choice([0.0, 0.0, round(r.uniform(-2, 2), 3)]),
         "batch": r.choice([0, 1, 2]),
@@ -571,14 +571,21 @@ def _check_delta(case, stats):
         x = funsor.Tensor(np.arange(int(np.prod(bshape) or 1)).reshape(bshape) % 3, binputs, 3)
     elif case["point"] == "tensor":
         x = funsor.Tensor(base + 0.1 * np.arange(int(np.prod(bshape) or 1)).reshape(bshape), binputs)
+    elif case["point"] in ("vector", "matrix"):
+        eshape = (3,) if case["point"] == "vector" else (2, 2)
+        n = int(np.prod(bshape) or 1) * int(np.prod(eshape))
+        x = funsor.Tensor(base + 0.1 * np.arange(n).reshape(bshape + eshape), binputs)
     else:  # lazy expression of a free real variable
         x = funsor.Variable("w", funsor.Real)
     ld = funsor.Number(case["ld"]) if case["batch"] == 0 else funsor.Tensor(case["ld"] + 0.0 * np.arange(int(np.prod(bshape))).reshape(bshape), binputs)
     d = Delta("v", x, ld)
-    dom = funsor.Bint[3] if intpoint else funsor.Real
+    vector = case["point"] in ("vector", "matrix")
+    dom = funsor.Bint[3] if intpoint else (x.output if vector else funsor.Real)
     v = funsor.Variable("v", dom)
     if intpoint:
         gfun = funsor.Tensor(np.array([0.3, -1.2, 2.5]), OrderedDict(v=funsor.Bint[3]))
+    elif vector:
+        gfun = (v * v).sum() + 0.5 * v.sum()
     elif case["g"] == "poly":
         gfun = v * v + 0.5 * v
     elif case["g"] == "exp":
@@ -599,6 +606,11 @@ def _check_delta(case, stats):
     other = x + (1 if intpoint else 0.5)
     if intpoint:
         other = funsor.Tensor((np.asarray(x.data) + 1) % 3, x.inputs, 3)
+    if vector:
+        # away from the point in ONE coordinate only (a partially coinciding value)
+        pert = np.array(x.data, dtype=np.float64)
+        pert[..., -1] += 0.5
+        other = funsor.Tensor(pert, x.inputs)
     try:
         off = d(v=other)
         off = off(**wsub) if wsub else off
